@@ -13,15 +13,18 @@ RULE = ('sequences: random classes (N 1..60), only-basic, only-acidic, only-R, n
 TRUSTED = ['float glue: the Henderson–Hasselbalch sums are evaluated in Python from the titratable counts (which Coq compares with '
            'the model\'s counts) and compared with the getters (1e-9)',
            'run-time wrapper around Sequence.charge_at_pH recording (pH, charge) of each call made by isoelectric_point']
-ASSUMPTIONS = ['numpy power is monotone/accurate to 1e-12 (observed, not proved)',
-               'that the bisection never reaches its escape clause is tested (all small titratable multisets), not proved: partial']
+ASSUMPTIONS = ['never-raises theorem: the float evaluation of charge_at_pH(pH, normalize=True) is within 1/1000 of the exact '
+               'Henderson-Hasselbalch mean charge per titratable residue at every pH the loop visits (measured on every recorded '
+               'call against 50-digit decimal arithmetic: observed distance < 1e-12; not proved about numpy)']
 LEVEL_TEXT = ('Proof (over R): NCPR(pH) is non-increasing in pH, |NCPR(pH)| <= FCR(pH) <= titratable/N, FER = FCR + proline fraction, '
               'pH outside [0,14] rejected; (over Q, for EVERY charge oracle, hence for the code\'s float-valued one) the isoelectric '
               'loop returns only a pH whose normalised charge is within 0.02 of 0, makes at most 221 evaluations, can only fail through '
-              'its escape clause, and returns 7.0 when nothing titrates. PARTIAL: that the escape clause is never reached is tested '
-              'exhaustively on small titratable multisets and random sequences, not proved. Tie: residue lists/signs/pKa/constants/loop '
+              'its escape clause, and returns 7.0 when nothing titrates; NEVER RAISES: for every oracle that is approximately '
+              'non-increasing, locally 1-Lipschitz, >= -0.011 at pH <= 1 and <= 0.011 at pH >= 15 the loop returns within 28 evaluations '
+              '(one escape at most), and (over R) every oracle within 1/1000 of the exact normalised charge of ANY sequence with a '
+              'titratable residue is such an oracle, and the returned pH neutralises the exact charge to 0.021. Tie: residue lists/signs/pKa/constants/loop '
               'shape from source; the recorded charge calls of real runs are replayed through the Coq loop bit-exactly.')
-LEVEL_NOTE = 'R theorems use the Coq Reals axioms. 10^x evaluation is float glue. never-raises is partial (tested).'
+LEVEL_NOTE = 'R theorems use the Coq Reals axioms. 10^x evaluation is float glue; never-raises assumes the float charge is within 1e-3 of the exact one (measured per call).'
 TECHNIQUE = 'Coq proof (monotonicity/bounds over R; loop invariants over Q for all oracles) + oracle-replay correspondence'
 
 IMPORTS = ('From Coq Require Import List ZArith QArith String.\n'
@@ -36,6 +39,23 @@ def glue(seq, pH):
     neg = sum(1 / (1 + 10 ** (PKA[c] - pH)) for c in seq if c in 'EDYC')
     N = len(seq)
     return ((pos + neg) / N, (pos - neg) / N, abs(pos - neg) / N, (pos + neg + seq.count('P')) / N)
+
+
+def exact_ncharge(seq, pH):
+    """mean charge per titratable residue in 50-digit decimal arithmetic (the oracle the never-raises theorem refers to)"""
+    import decimal
+    D = decimal.Decimal
+    with decimal.localcontext() as cx:
+        cx.prec = 50
+        tot, n = D(0), 0
+        for c in seq:
+            if c in 'KRH':
+                tot += 1 / (1 + D(10) ** (D(repr(pH)) - D(repr(PKA[c]))))
+                n += 1
+            elif c in 'EDYC':
+                tot -= 1 / (1 + D(10) ** (D(repr(PKA[c])) - D(repr(pH))))
+                n += 1
+        return float(tot / n) if n else 0.0
 
 
 def _one(seq):
@@ -82,6 +102,16 @@ def _one(seq):
             problems.append({'why': 'no titratable residue but pI != 7.0', 'pI': pi})
     else:
         problems.append({'why': 'get_isoelectric_point did not return', 'impl': [st, pi]})
+    if len(calls) > 28:
+        problems.append({'why': 'more than 28 charge evaluations (theorem C09_pI_never_raises bounds them by 28)', 'calls': len(calls)})
+    worst = 0.0
+    for x, c in calls:
+        e = exact_ncharge(seq, x)
+        worst = max(worst, abs(c - e))
+        if abs(c - e) > 1e-9:
+            problems.append({'why': 'float charge_at_pH(normalize=True) differs from the exact Henderson-Hasselbalch value '
+                                    '(hypothesis of C09_pI_never_raises)', 'pH': x, 'impl': c, 'exact': e})
+            break
     counts = [seq.count(c) for c in ORDER] + [seq.count('P'), len(seq)]
     return counts, calls, (st, pi), problems
 
@@ -94,6 +124,9 @@ def multisets(k):
 
 
 def build(ctx):
+    import harness.util as _U
+    _U.PRELUDE = 3      # every third object (by crc32 of its sequence) answers after a query history (util.prelude)
+    _U.DECORATE = 4     # every fourth sequence is handed to the constructor in another accepted spelling (util.decorate)
     rng = ctx.rng
     seqs = gen_seq.random_classes(rng, ctx.pick(150, 800), 1, 60) + list(AAS)
     seqs += ['R' * n for n in (1, 5, 30)] + ['K' * 9, 'D' * 7, 'E', 'RRRRG', 'GGSSAA', 'H', 'YC', 'KRHKRH', 'DEDEYC']
